@@ -541,9 +541,22 @@ func (d *Datastore) TransactionCancel(ctx context.Context, transactionId string)
 
 func loadIntendedStoreHighestPrio(ctx context.Context, tscc tree.TreeCacheClient, r *tree.RootEntry, pathKeySet *tree.PathSet, skipIntents []string) error {
 
+	// A presence container on the way to an involved path can carry a value of its own that belongs to an intent
+	// outside of the transaction. That value decides if the container stays when the content below it goes away,
+	// so it is one of the alternatives, too.
+	paths := tree.NewPathSet()
+	paths.Join(pathKeySet)
+	for _, p := range pathKeySet.GetPaths() {
+		for i := 1; i < len(p); i++ {
+			if exists, err := tscc.IntendedPathExists(ctx, p[:i]); err == nil && exists {
+				paths.AddPath(p[:i])
+			}
+		}
+	}
+
 	// Get the highest priority entries of the involved paths. All the transactions intents might rank above
 	// the best remaining entry, so one more priority then intents in the transaction needs to be loaded.
-	cacheEntries := tscc.ReadCurrentUpdatesHighestPriorities(ctx, pathKeySet.GetPaths(), uint64(len(skipIntents)+1))
+	cacheEntries := tscc.ReadCurrentUpdatesHighestPriorities(ctx, paths.GetPaths(), uint64(len(skipIntents)+1))
 
 	flags := tree.NewUpdateInsertFlags()
 
